@@ -54,7 +54,10 @@ InterpretLaw == last.op = "interpret" =>
   /\ (last.oc.k = "offset" /\ last.oo = "ignore" => last.out = Disambiguate(last.z, last.w, last.dis))
   /\ (last.oc.k = "offset" /\ last.oo = "reject" /\ last.out.kind = "ok" =>
         Wall(last.z, last.out.val) = last.w /\ (last.w - last.out.val = last.oc.o \/ RoundToMinute(last.w - last.out.val) = last.oc.o))
-  /\ (last.oc.k = "offset" /\ last.oo = "prefer" /\ (\E p \in PossibleSet(last.z, last.w) : last.w - p = last.oc.o) => last.out = Ok(last.w - last.oc.o))
+  \* (candidates are tried in ascending order and each by both tests: an earlier candidate whose offset merely ROUNDS to the given one
+  \* wins over a later exact one - refuted without this condition on the zone +01:00:12 -> +01:00)
+  /\ (last.oc.k = "offset" /\ last.oo = "prefer" /\ (\E p \in PossibleSet(last.z, last.w) : last.w - p = last.oc.o)
+        /\ ~(\E q \in PossibleSet(last.z, last.w) : q < last.w - last.oc.o /\ RoundToMinute(last.w - q) = last.oc.o) => last.out = Ok(last.w - last.oc.o))
 \* every view of an instant is the same instant read through the offset in force; date and time split the wall reading
 ViewLaw == last.op = "views" /\ last.via # "string" =>
   LET v == last.out.val IN /\ v.t = last.t /\ v.w = v.t + v.off /\ v.off = OffsetAt(last.z, last.t)
